@@ -55,18 +55,22 @@ let run () = iter_lines (fun line ->
           if contains b "<missing marker" && not !dead then (dead := true; bump "inconclusive:the-reference-session-died");
           if a <> b && not !dead then begin
             (* which known findings can explain a difference at this point of the history *)
-            let vars = (if String.contains !seen 'U' then ["INH2"] else []) @ (if String.contains !seen 'B' then ["IFS"] else []) @ (if String.contains !seen 'r' then ["RO"] else []) in
+            let vars = (if String.contains !seen 'U' then ["INH2"] else []) @ (if String.contains !seen 'B' then ["IFS"] else []) @ (if String.contains !seen 'r' then ["RO"] else []) @ (if String.contains !seen 'T' then ["TRAPV"] else []) in
             if vars <> [] && without2 vars a = without2 vars b then begin
               if List.mem "INH2" vars && without2 (List.filter (fun v -> v <> "INH2") vars) a <> without2 (List.filter (fun v -> v <> "INH2") vars) b then
                 report "SPEC:C12" "known:unset-not-carried a variable that the fresh process defines by itself (inherited environment, IFS) was unset, the next test case sees it again" line
               else if List.mem "IFS" vars && without2 (List.filter (fun v -> v <> "IFS") vars) a <> without2 (List.filter (fun v -> v <> "IFS") vars) b then
                 report "SPEC:C12" "known:unset-not-carried a variable that the fresh process defines by itself (inherited environment, IFS) was unset, the next test case sees it again" line
+              else if List.mem "TRAPV" vars && without2 (List.filter (fun v -> v <> "TRAPV") vars) a <> without2 (List.filter (fun v -> v <> "TRAPV") vars) b then
+                report "SPEC:C12" "known:exit-trap-replaces-persist a test case that sets its own EXIT trap leaves no state behind: what it defined is missing in the next test case" line
               else report "SPEC:C12" "known:readonly-not-carried a read-only variable is not carried to the next test case (documented exclusion)" line
             end else
               report "SPEC:C12" (Printf.sprintf "test case %d observes a state that differs from the single bash session" i) line
           end) (List.combine steps (List.combine impl reference));
         (* the state files: exactly the variables that are not read-only and not excluded *)
-        if states <> "-" then List.iter (fun st -> match split_on '/' st with
+        (* a test case with its own EXIT trap writes no state file (known finding): the file found afterwards is an older one *)
+        if states <> "-" && List.exists (fun (c, _, _) -> String.contains c 'T') steps then bump "state-file:not-compared(own EXIT trap in the history)"
+        else if states <> "-" then List.iter (fun st -> match split_on '/' st with
             | [declared; all; ro] ->
               let declared = words (string_of_hex declared) and all = words (string_of_hex all) and ro = words (string_of_hex ro) in
               (* a value with a line that itself starts with `declare -` confuses the line-wise reading of the file here: skip those histories *)
